@@ -140,10 +140,13 @@ class PcapWriterMonitor(WhadMonitor):
             
             # Relative time synchronization
             if timestamp is None:
+                # No accurate (device) timestamp for this packet: use the local
+                # clock as is. It must not go through the reference pair, which
+                # maps the device time base onto the local one.
                 timestamp = now
 
-            # Process accurate timestamp if available, else use local clock
-            if self._reference_time is None:
+            # Process accurate timestamp if available
+            elif self._reference_time is None:
                 if self._start_time is None:
                     self._reference_time = (now, timestamp)
                 else:
